@@ -48,8 +48,26 @@ class TemplateEval:
         t.approx = self.approx
         return t
 
+    def text_lists(self, e):
+        """the non-empty lists of formatted texts an expression concatenates, in order (roles ('texts', hole, nonempty)); None if it is not one"""
+        if isinstance(e, ast.Name) and isinstance(self.roles.get(e.id), tuple) and self.roles[e.id][0] == "texts":
+            return [self.roles[e.id][1]] if self.roles[e.id][2] else []
+        if isinstance(e, ast.BinOp) and isinstance(e.op, ast.Add):
+            a, b = self.text_lists(e.left), self.text_lists(e.right)
+            return None if a is None or b is None else a + b
+        if isinstance(e, (ast.List, ast.Tuple)) and e.elts and all(isinstance(x, ast.Starred) for x in e.elts):
+            parts = [self.text_lists(x.value) for x in e.elts]
+            return None if any(p_ is None for p_ in parts) else [h for p_ in parts for h in p_]
+        if isinstance(e, ast.Call) and u(e.func) in ("itertools.chain", "chain") and e.args:
+            parts = [self.text_lists(x) for x in e.args]
+            return None if any(p_ is None for p_ in parts) else [h for p_ in parts for h in p_]
+        return None
+
     def element_role(self, it):
         """role of the loop variable of `for x in <it>`: a row of an array, an element of a row"""
+        rk = self.roles.get(" ".join(u(it).split()))
+        if isinstance(rk, tuple) and rk[0] in ("array", "row"):
+            return ("row", rk[1]) if rk[0] == "array" else ("value", rk[1])
         if isinstance(it, ast.Name) and isinstance(self.roles.get(it.id), tuple):
             r = self.roles[it.id]
             if r[0] == "array":
@@ -77,6 +95,9 @@ class TemplateEval:
             isinstance(t_, ast.Name) and t_.id == name for t_ in (n.targets if isinstance(n, ast.Assign) else [n.target]))]
         if len(binds) == 1 and isinstance(binds[0], ast.Assign):
             return ("expr", binds[0].value)
+        # bound in several branches of one conditional: any of the texts
+        if len(binds) >= 2 and all(isinstance(b_, ast.Assign) for b_ in binds):
+            return ("pieces", [("alt", [self.ev(b_.value) for b_ in binds])])
         if len(binds) == 2 and isinstance(binds[0], ast.Assign) and isinstance(binds[0].value, ast.Constant) and binds[0].value.value == "" and isinstance(binds[1], ast.AugAssign) \
                 and isinstance(binds[1].op, ast.Add):
             loops = [l for st in self.scope for l in ast.walk(st) if isinstance(l, ast.For) and binds[1] in l.body and isinstance(l.target, ast.Name)]
@@ -100,6 +121,29 @@ class TemplateEval:
                 return [x for x in out if x != ("lit", "")]
         if isinstance(e, ast.Name) and e.id in self.roles and isinstance(self.roles[e.id], tuple) and self.roles[e.id][0] == "alias":
             return self.ev(self.roles[e.id][1])
+        # roles given for an expression text (op['op'], op['modes'])
+        tkey = " ".join(u(e).split())
+        if tkey in self.roles and not isinstance(e, ast.Name):
+            r = self.roles[tkey]
+            if isinstance(r, list):
+                return list(r)
+            if isinstance(r, tuple) and r[0] == "value":
+                return self.value_hole(r[1])
+        if isinstance(e, ast.Subscript) and isinstance(e.slice, ast.Constant) and isinstance(e.slice.value, int):
+            rb = self.roles.get(" ".join(u(e.value).split()))
+            if isinstance(rb, tuple) and rb[0] == "row":
+                return self.value_hole(rb[1])
+        # sep.join(<list of texts>): a collection of already formatted argument texts, possibly the concatenation of two of them
+        if isinstance(e, ast.Call) and isinstance(e.func, ast.Attribute) and e.func.attr == "join" and isinstance(e.func.value, ast.Constant) and isinstance(e.func.value.value, str) and len(e.args) == 1:
+            parts = self.text_lists(e.args[0])
+            if parts is not None:
+                sep = [("lit", e.func.value.value)] if e.func.value.value else []
+                out = []
+                for hole in parts:
+                    if out:
+                        out += sep
+                    out.append(("rep", [("hole", hole)], sep))
+                return out
         # sep.join(<comprehension over the rows / the elements of a row>)  and  ''.join(e + sep ...)[:-len(sep)]
         if isinstance(e, ast.Call) and isinstance(e.func, ast.Attribute) and e.func.attr == "join" and isinstance(e.func.value, ast.Constant) and isinstance(e.func.value.value, str) and len(e.args) == 1:
             arg = e.args[0]
@@ -733,7 +777,7 @@ def structure(rep, R, ix, M):
         if optvar is not None:
             rep.check(fresh_per_iteration(loops[0].body), R, ix.site(f, loops[0]), "the option text of a metadata line is computed for that line (bound anew in every iteration before it is written)",
                       "`%s` can still hold the text of the previous declaration when the line is written (the type line repeats the target's options)" % optvar, key="meta|options fresh")
-        opt = [n for n in ast.walk(loops[0]) if isinstance(n, ast.Assign) and optvar is not None and u(n.targets[0]) == optvar and isinstance(n.value, ast.Call)]
+        opt = [n for n in ast.walk(loops[0]) if isinstance(n, ast.Assign) and optvar is not None and u(n.targets[0]) == optvar and not isinstance(n.value, ast.Constant)]
         okm = okm and len(opt) <= 1 and all(re.fullmatch(OPTS_RE, norm.canon_text(o_.value) or "") for o_ in opt) and (bool(opt) or any(m_ and m_.group("coll") for m_ in ms))
     rep.check(okm, R, ix.site(f, loops[0]) if loops else ix.site(f), "target and type lines are '<keyword> <name>[ (<k>=<v>, ...)]' in that order, written only when a name is set", key="meta|target type")
     # statement lines
@@ -741,11 +785,23 @@ def structure(rep, R, ix, M):
     txt = sorted(str(norm.canon_text(n.args[0])) for n in lines)
     one_piece = "({', '.join(args + kwargs)})"
     inline = txt == ["{op['op']} | {modes}", "{op['op']}%s | {modes}" % one_piece]       # the argument text written in place (or a once-bound local looked through)
-    rep.check(inline or txt == ["{op['op']} | {modes}", "{op['op']}{arguments} | {modes}"], R, ix.site(f), "statement lines are '<op>[(<arguments>)] | <modes>'", "got %s" % txt, key="stmt|line")
     args = sorted(str(norm.canon_text(n.value)) for n in walk_shallow(fn) if isinstance(n, ast.Assign) and u(n.targets[0]) == "arguments")
     three = sorted(["({', '.join(args)}, {', '.join(kwargs)})", "({', '.join(args)})", "({', '.join(kwargs)})"])
-    rep.check(args in ([one_piece], three) or (inline and args == []), R, ix.site(f),
-              "arguments are '(<positional>, <keyword>)' with positional arguments first", "got %s" % args, key="stmt|arguments")
+    ok_line = inline or txt == ["{op['op']} | {modes}", "{op['op']}{arguments} | {modes}"]
+    ok_args = args in ([one_piece], three) or (inline and args == [])
+    lang = None
+    if not (ok_line and ok_args):
+        lang = statement_language(ix, M, f)
+    if lang is not None and lang[0] is True:
+        rep.ok(R, ix.site(f), "statement lines are '<op>[(<arguments>)] | <modes>', positional arguments first (decided as a language on the four models of empty / non-empty "
+                              "positional and keyword argument lists: %s)" % "; ".join(lang[1]))
+    elif lang is not None and lang[0] is False:
+        rep.bad(R, ix.site(f), "statement lines are '<op>[(<arguments>)] | <modes>' with positional arguments first", lang[1], key="stmt|language")
+    elif lang is not None:
+        rep.unknown(R, ix.site(f), "statement lines are '<op>[(<arguments>)] | <modes>' with positional arguments first", "%s; line templates %s, argument templates %s" % (lang[1], txt, args))
+    else:
+        rep.check(ok_line, R, ix.site(f), "statement lines are '<op>[(<arguments>)] | <modes>'", "got %s" % txt, key="stmt|line")
+        rep.check(ok_args, R, ix.site(f), "arguments are '(<positional>, <keyword>)' with positional arguments first", "got %s" % args, key="stmt|arguments")
     mvals = []
     for n in walk_shallow(fn):
         if isinstance(n, ast.Assign) and u(n.targets[0]) == "modes":
@@ -766,6 +822,75 @@ def structure(rep, R, ix, M):
     rep.check(len(oploop) == 1, R, ix.site(f), "operations are written in list order", key="op order")
 
 
+def prune_block(stmts, atom):
+    """the statements with every conditional that the model decides replaced by the branch taken"""
+    out = []
+    for s_ in stmts:
+        if isinstance(s_, ast.If):
+            try:
+                c = bool(AEval(atom).truth(AEval(atom).ev(s_.test)))
+            except Exception:
+                c = None
+            if c is not None:
+                out.extend(prune_block(s_.body if c else s_.orelse, atom))
+                continue
+            s2 = copy.copy(s_)
+            s2.body, s2.orelse = prune_block(s_.body, atom), prune_block(s_.orelse, atom)
+            out.append(s2)
+        elif isinstance(s_, (ast.For, ast.While)):
+            s2 = copy.copy(s_)
+            s2.body = prune_block(s_.body, atom)
+            out.append(s2)
+        else:
+            out.append(s_)
+    return out
+
+
+def statement_language(ix, M, f):
+    """the operation lines as a language, for each of the four models of (positional arguments empty / not, keyword arguments empty / not):
+    '<op>' [ '(' <positional> (', ' <positional>)* (', ' <keyword>)* | <keyword> (', ' <keyword>)* ')' ] ' | ' <int> | '[' <int> (', ' <int>)* ']'.
+    -> (True, [what was shown]) | (False, witness) | (None, why undecided)"""
+    fn = f.node
+    L = Lang(M.G)
+    oploop = [n for n in fn.body if isinstance(n, ast.For) and u(n.iter) in ("self.operations", "self._operations") and isinstance(n.target, ast.Name)]
+    if len(oploop) != 1:
+        return None, "loop over the operations not recognised"
+    lp = oploop[0]
+    op = lp.target.id
+    slots = [x for x in find_slots(ix) if x.name in ("positional argument", "keyword argument")]
+    if len(slots) != 2 or not all(len(x.collections) == 1 for x in slots):
+        return None, "argument collections not recognised"
+    pa = [x for x in slots if x.name.startswith("positional")][0].collections[0]
+    ka = [x for x in slots if x.name.startswith("keyword")][0].collections[0]
+    target = L.of_expr("SH_NAME ( '(' ( SH_PARG (', ' SH_PARG)* (', ' SH_KARG)* | SH_KARG (', ' SH_KARG)* )? ')' )? ' | ' ( SH_INT | '[' SH_INT (', ' SH_INT)* ']' )")
+    shown = []
+    for pne in (True, False):
+        for kne in (True, False):
+            def atom(node, pne=pne, kne=kne):
+                if isinstance(node, ast.Name) and node.id == pa:
+                    return ("x",) if pne else ()
+                if isinstance(node, ast.Name) and node.id == ka:
+                    return ("x",) if kne else ()
+                return AEval.NO
+            body = prune_block(list(lp.body), atom)
+            apps = [n for s_ in body for n in ast.walk(s_) if isinstance(n, ast.Call) and isinstance(n.func, ast.Attribute) and n.func.attr == "append" and u(n.func.value) == "script" and n.args
+                    and "|" in (norm.canon_text(n.args[0]) or u(n.args[0]))]
+            if not apps:
+                return None, "no statement line is written for %s positional / %s keyword arguments" % ("some" if pne else "no", "some" if kne else "no")
+            for a_ in apps:
+                roles = {pa: ("texts", "SH_PARG", pne), ka: ("texts", "SH_KARG", kne), "%s['op']" % op: [("hole", "SH_NAME")], '%s["op"]' % op: [("hole", "SH_NAME")],
+                         "%s['modes']" % op: ("row", "PyInt"), '%s["modes"]' % op: ("row", "PyInt")}
+                try:
+                    pieces = TemplateEval(ix, f.mod, fn, roles, scope=body).ev(a_.args[0])
+                    w = included(L.of_pieces(pieces), target)
+                except Inconclusive as e_:
+                    return None, str(e_)
+                if w is not None:
+                    return False, "with %s positional and %s keyword arguments the line `%s` can read %r" % ("some" if pne else "no", "some" if kne else "no", show_pieces(pieces)[:80], w)
+                shown.append(show_pieces(pieces)[:60])
+    return True, sorted(set(shown))[:4]
+
+
 # ------------------------------------------------------------------------------------------------------------ arrays (C01.5 / C09.5)
 def arrays(rep, R, ix, M, L):
     G = M.G
@@ -777,7 +902,46 @@ def arrays(rep, R, ix, M, L):
               "(the declared element type is the array's own dtype)", "`%s`" % (" ".join(u(reb[0]).split())[:70] if reb else ""), key="array|param")
     arms = []
     cur = fn.body
-    chain = [s for s in fn.body if isinstance(s, ast.If) and "issubdtype" in u(s.test)]
+    # which dtype an arm catches is decided on dtype models (kind characters), whatever way the test is spelled:
+    # np.issubdtype(A.dtype, np.<class>), A.dtype.kind == 'c', A.dtype.kind in 'iu', a local bound to A.dtype.kind ...
+    from ..py.guards import single_assignments
+    alias_ = single_assignments(fn)
+    SUB = {"complexfloating": "c", "integer": "iu", "signedinteger": "i", "unsignedinteger": "u", "floating": "f", "inexact": "fc", "number": "iufc", "bool_": "b"}
+
+    def dtype_atom(kind_char):
+        def atom(node):
+            t = " ".join(u(node).split())
+            if t == "%s.dtype.kind" % A:
+                return kind_char
+            if isinstance(node, ast.Name) and node.id in alias_ and " ".join(u(alias_[node.id]).split()) == "%s.dtype.kind" % A:
+                return kind_char
+            if isinstance(node, ast.Call) and u(node.func).endswith("issubdtype") and len(node.args) == 2 and " ".join(u(node.args[0]).split()) in ("%s.dtype" % A, "%s.dtype.type" % A):
+                cls = u(node.args[1]).split(".")[-1]
+                if cls in SUB:
+                    return kind_char in SUB[cls]
+            return AEval.NO
+        return atom
+
+    def catches(test):
+        got = set()
+        for kc in "ciufbOmSU":
+            try:
+                if AEval(dtype_atom(kc)).truth(AEval(dtype_atom(kc)).ev(test)):
+                    got.add(kc)
+            except Exception:
+                return None
+        return got
+
+    def dtype_class(test):
+        got = catches(test)
+        if got == {"c"}:
+            return "np.complexfloating"
+        if got is not None and {"i", "u"} <= got <= {"i", "u", "m"}:
+            return "np.integer"
+        if got == {"f"}:
+            return "np.floating"
+        return None
+    chain = [s for s in fn.body if isinstance(s, ast.If) and dtype_class(s.test) is not None]
     # an up-front guard `if not np.issubdtype(...): raise` is not the dispatch
     guards = [s for s in chain if always_raises(s.body) and not s.orelse]
     chain = [s for s in chain if s not in guards]
@@ -789,7 +953,7 @@ def arrays(rep, R, ix, M, L):
     els = []
     while True:
         arms.append((c.test, c.body))
-        if len(c.orelse) == 1 and isinstance(c.orelse[0], ast.If) and "issubdtype" in u(c.orelse[0].test):
+        if len(c.orelse) == 1 and isinstance(c.orelse[0], ast.If) and dtype_class(c.orelse[0].test) is not None:
             c = c.orelse[0]
             continue
         if c.orelse:
@@ -809,9 +973,17 @@ def arrays(rep, R, ix, M, L):
     seen = set()
     for test, body in arms:
         t = " ".join(u(test).split())
-        m = re.fullmatch(r"np\.issubdtype\(%s\.dtype, (np\.\w+)\)" % A, t)
-        if not m or m.group(1) not in want:
+        dc = dtype_class(test)
+        if dc is None or dc not in want:
             raise Inconclusive("numpy_to_blackbird: dtype test `%s` not recognised" % t)
+
+        class _M:
+            def __init__(self, g):
+                self.g = g
+
+            def group(self, i):
+                return self.g
+        m = _M(dc)
         word, form, kind = want[m.group(1)]
         seen.add(m.group(1))
         hdr = [s for s in body if isinstance(s, ast.Assign) and u(s.targets[0]) == "script"]
@@ -823,11 +995,11 @@ def arrays(rep, R, ix, M, L):
         if len(rows) == 1:
             rl = rows[0]
             rs = [s for s in rl.body if isinstance(s, ast.Assign)]
-            if len(rs) == 1:
+            ap = [x for x in ast.walk(rl) if isinstance(x, ast.Call) and isinstance(x.func, ast.Attribute) and x.func.attr == "append" and u(x.func.value) == "script"]
+            if len(rs) == 1 and len(ap) == 1 and isinstance(ap[0].args[0], ast.Name) and u(rs[0].targets[0]) == ap[0].args[0].id:
                 rowexpr = rs[0].value
             else:
-                ap = [x for x in ast.walk(rl) if isinstance(x, ast.Call) and isinstance(x.func, ast.Attribute) and x.func.attr == "append" and u(x.func.value) == "script"]
-                rowexpr = ap[0].args[0] if len(ap) == 1 else None
+                rowexpr = ap[0].args[0] if len(ap) == 1 else (rs[0].value if len(rs) == 1 else None)
             rowvar = u(rl.target)
         else:
             ext = [x for s_ in body for x in ast.walk(s_) if isinstance(x, ast.Call) and isinstance(x.func, ast.Attribute) and x.func.attr == "extend" and u(x.func.value) == "script"
@@ -839,6 +1011,15 @@ def arrays(rep, R, ix, M, L):
             rowvar = u(ext[0].args[0].generators[0].target)
         ok_row = False
         elt = None
+        # the row as a language: four spaces, then the elements in their form, separated by ', ' - however the text is put together
+        try:
+            pieces_r = TemplateEval(ix, f.mod, fn, {rowvar: ("row", kind)}, scope=list(rl.body) if isinstance(rl, ast.For) else None).ev(rowexpr)
+            w_r = included(L.of_pieces(pieces_r), L.of_expr("'    ' %s (', ' %s)*" % (form, form)))
+            rep.check(w_r is None, R, ix.site(f, rl), "each %s row is written `%s`: four spaces (one TAB token) + elements in the form %s separated by ', ', in column order" % (word, show_pieces(pieces_r)[:60], form),
+                      "e.g. %r" % w_r, key="array|row|" + word)
+            continue
+        except Inconclusive:
+            pass
         if isinstance(rowexpr, ast.BinOp) and isinstance(rowexpr.left, ast.Constant) and isinstance(rowexpr.right, ast.Call):
             ind = rowexpr.left.value
             j = rowexpr.right
@@ -1121,6 +1302,17 @@ def hoist_semantic(ix, s, slot, body, script):
                 adv = [y for y in after[after.index(x) + 1:] if isinstance(y, ast.AugAssign) and u(y.target) == M]
                 if len(adv) == 1 and " ".join(u(adv[0]).split()) == "%s += len(%s)" % (M, holder):
                     return True, M, "inserted line by line at `%s`, which then advances by the number of lines" % M
+                return False, None, "after the lines were inserted at `%s` the insertion point is not advanced by their number" % M
+        # (a') for pos, line in enumerate(B, start=M): script.insert(pos, line)   followed by   M += len(B)
+        if isinstance(x, ast.For) and isinstance(x.iter, ast.Call) and u(x.iter.func) == "enumerate" and len(x.iter.args) in (1, 2) and is_block(x.iter.args[0]) and holder \
+                and isinstance(x.target, ast.Tuple) and len(x.target.elts) == 2 and len(x.body) == 1:
+            start = x.iter.args[1] if len(x.iter.args) == 2 else next((k.value for k in x.iter.keywords if k.arg == "start"), None)
+            i_, l_ = u(x.target.elts[0]), u(x.target.elts[1])
+            if isinstance(start, ast.Name) and " ".join(u(x.body[0]).split()) == "%s.insert(%s, %s)" % (script, i_, l_):
+                M = start.id
+                adv = [y for y in after[after.index(x) + 1:] if isinstance(y, ast.AugAssign) and u(y.target) == M]
+                if len(adv) == 1 and " ".join(u(adv[0]).split()) == "%s += len(%s)" % (M, holder):
+                    return True, M, "inserted line by line from `%s` on, which then advances by the number of lines" % M
                 return False, None, "after the lines were inserted at `%s` the insertion point is not advanced by their number" % M
         # (b) script[M:M] = B   followed by   M += len(B)
         if isinstance(x, ast.Assign) and len(x.targets) == 1 and isinstance(x.targets[0], ast.Subscript) and u(x.targets[0].value) == script and isinstance(x.targets[0].slice, ast.Slice) \
